@@ -106,9 +106,7 @@ def np_index(M, q):
         if q[0] == "two":
             a, b = q[1], q[2]
             if a[0] == "list" and b[0] == "list":
-                if len(a[1]) != len(b[1]):
-                    return ("skip",)
-                return ("vec", M[py_comp(a), py_comp(b)].reshape(-1))
+                return ("vec", M[np.array(a[1], dtype=np.int64), np.array(b[1], dtype=np.int64)].reshape(-1))   # numpy broadcasts; IndexError on mismatch
             if a[0] == "int" and b[0] == "int":
                 return ("scalar", M[py_comp(a), py_comp(b)])
             if a[0] == "int":
@@ -324,7 +322,7 @@ def coq_np(w):
 
 def coq_flags(fl):
     b = lambda x: "true" if x else "false"
-    return f"(mkflags {b(fl['row'])} {b(fl['dotA'])} {b(fl['cpu'])} {b(fl['empty'])} {b(fl.get('tself'))})"
+    return f"(mkflags {b(fl['row'])} {b(fl['dotA'])} {b(fl['cpu'])} {b(fl['empty'])} {b(fl['zip'])} {b(fl.get('tself'))})"
 
 
 def coq_case(case, obs, nps, fl, keep):
